@@ -1,8 +1,10 @@
 import Nsq.Proofs.PubCounts
+import Nsq.Tie.PubCounts
 /-! C13 "stats account for every message", producers (audit B26): the `pub_counts` of a producer connection in
 `/stats`. Model `Nsq.Model.PubCounts` (`pubCountsOf fixed m filter` = the loop of `clientV2.Stats`, `publish` =
-`clientV2.PublishedMessage`), tie `Nsq.Tie.PubCounts` (exactly two loop shapes: unconditional `break` = `fixed := false`,
-fix F49 = `fixed := true`), replay on the real code `harness/e2/e2_pubcounts_test.go`.
+`clientV2.PublishedMessage`), tie `Nsq.Tie.PubCounts` (F49 = /repo 6fb5d96 is committed: ONLY its loop shape is accepted,
+`treeFixed = true` is computed from the facts, `pub_counts_full_this_tree`; the unconditional `break` = `fixed := false` is
+the tree before it), replay on the real code `harness/e2/e2_pubcounts_test.go`.
 
 `m` is ONE iteration order of the Go map; every statement about a publish history `h` holds for EVERY order
 (`order : m.Perm (mapOf h)`), because the order of `range` over a map is the runtime's choice. -/
@@ -96,6 +98,16 @@ example :
     ∧ pubCountsOf false [("a", 1), ("b", 2)] "b" = [("b", 2)]
     ∧ pubCountsOf false [("b", 2), ("a", 1)] "" = [("b", 2)]
     ∧ total (pubCountsOf false [("a", 1), ("b", 2)] "") = 1 ∧ total (mapOf [("a", 1), ("b", 2)]) = 3 := by decide
+
+/-- THIS tree (audit B12): the parameter is computed from the regenerated loop of `clientV2.Stats` and the tie decides it
+`true`; a tree that reverts F49 fails `Tie.PubCounts.tree_fixed` and this theorem with it. -/
+theorem pub_counts_full_this_tree : PubCountsFull Nsq.Tie.PubCounts.treeFixed := by
+  rw [Nsq.Tie.PubCounts.tree_fixed]
+  intro m _ k hk
+  rw [Nsq.Proofs.PubCounts.unfiltered_fixed]; exact hk
+
+example : pubCountsOf Nsq.Tie.PubCounts.treeFixed [("a", 1), ("b", 2)] "" = [("a", 1), ("b", 2)] := by
+  rw [Nsq.Tie.PubCounts.tree_fixed]; decide
 
 /-- The F49 shape has it. -/
 theorem pub_counts_full_fixed : PubCountsFull true := by
